@@ -16,7 +16,8 @@ EXPLANATION = (
     "collection of all changes of that op with the matching tag (never the first change only) and the empty string on "
     "the side without lines, and no arm leaves the loops early; (R-DIFFUNI) output_diff_unified writes the Display of "
     "unified_diff() of from_lines(old, new) with the missing-newline hint untouched; (R-DIFFSUMMARY) the Summary arm "
-    "prints `<file_name>\\n`.")
+    "prints `<file_name>\\n`."
+    "Later rounds: (R-CHECKVERDICT); (R-DIFFBYTES) the bytes returned by output_diff_unified / output_diff reach create_diff's caller unmodified (no mutating Vec operation, also inside mapped closures).")
 ASSUMPTIONS = ["similar::TextDiff computes a correct line diff and prints a correct unified diff",
                "the JSON convention for a side without lines is the range [index, index] with an empty text (frozen from the code)",
                "rustc MIR and Instance::try_resolve are trusted"]
